@@ -17,6 +17,7 @@ Shape ==
   @@ (<<"dc2">> :> N("ns", FALSE)) @@ (<<"dc2", "inner">> :> N("ns", FALSE)) @@ (<<"dc2", "inner", "xval">> :> N("leaf", TRUE))
   @@ (<<"dc2", "inner", "yval">> :> N("leaf", FALSE)) @@ (<<"dc2", "zval">> :> N("leaf", FALSE))
   @@ (<<"model">> :> [kind |-> "cls", req |-> TRUE, of |-> ClsOf, req_of |-> ClsReqOf, ord |-> 0])
+  @@ (<<"model2">> :> [kind |-> "cls", req |-> TRUE, of |-> ClsOf, req_of |-> ClsReqOf, ord |-> 0])   \* declared with add_subclass_arguments(required, as_group=False)
   @@ (<<"items">> :> N("list", FALSE)) @@ (<<"items", "#">> :> N("ns", FALSE)) @@ (<<"items", "#", "xval">> :> N("leaf", TRUE)) @@ (<<"items", "#", "yval">> :> N("leaf", FALSE))
   @@ (<<"d">> :> N("dict", FALSE))
   @@ (<<"subcommand">> :> N("leaf", TRUE))
@@ -26,6 +27,7 @@ Shape ==
 E(p, v) == [p |-> p, v |-> v]
 Valid(sub, cls) == {E(<<"top">>, "1"), E(<<"g", "alpha">>, "1"), E(<<"dc", "xval">>, "1"), E(<<"dc2", "inner", "xval">>, "1"),
                     E(<<"model", "class_path">>, cls), E(<<"model", "init_args", "arg">>, "1"),
+                    E(<<"model2", "class_path">>, "Sub"), E(<<"model2", "init_args", "arg">>, "1"),
                     E(<<"items", "#", "xval">>, "1"), E(<<"items", "#", "yval">>, "1"), E(<<"d", "anykey">>, "1"), E(<<"subcommand">>, sub)}
                    \cup (IF sub = "fit" THEN {E(<<"fit", "epochs">>, "1")} ELSE {E(<<"test", "ckpt">>, "1")})
 
@@ -55,7 +57,8 @@ Mutations(cls) == {Mut("none", << >>, << >>)}
              \cup UNION {{Mut("foreign", pos, n) : n \in Names(pos, cls)} : pos \in Positions}
              \cup {Mut("known-in-other-section", <<"test">>, <<"ckpt">>)}
              \cup {Mut(k, r, << >>) : k \in {"remove", "null"}, r \in Required \ {<<"model">>}}
-             \cup {Mut("remove", <<"model">>, << >>), Mut("remove", <<"model", "class_path">>, << >>)}   \* the second: init_args alone, a valid short form
+             \cup {Mut("remove", <<"model">>, << >>), Mut("remove", <<"model", "class_path">>, << >>), Mut("remove", <<"model2">>, << >>),
+                   Mut("null", <<"model2">>, << >>), Mut("remove", <<"model2", "init_args", "arg">>, << >>)}   \* the second: init_args alone, a valid short form
 Apply(cfg, m) ==
   CASE m.kind = "none" -> cfg
     [] m.kind \in {"foreign", "known-in-other-section"} -> cfg \cup {E(m.p \o m.n, "1")}
